@@ -69,6 +69,9 @@ pub fn generate(seed: u64, cases: usize, out: &mut Vec<String>) {
                     _ => {
                         if flavour == 3 {
                             out.push("pers ckpt".into());
+                        } else if flavour == 0 && r.chance(1, 2) {
+                            // the log moves on to its next file (what happens by itself at 64 MB)
+                            out.push("pers rotate".into());
                         }
                     }
                 }
@@ -189,6 +192,10 @@ pub fn run(st: &mut PersSt, args: &[&str]) -> String {
             }
             ["ckpt"] => {
                 db.wal_checkpoint().unwrap();
+                "-".into()
+            }
+            ["rotate"] => {
+                db.wal().expect("persistent database").rotate().unwrap();
                 "-".into()
             }
             ["close"] => {
